@@ -236,6 +236,8 @@ class Program:
             return name, [x], (lambda a: bool(a)), I(dtype=None)
         if name in ("transpose", "transpose_inplace"):
             perm = self.axform(rng.sample(range(nd), nd), nd)
+            if name == "transpose" and ferm and rng.random() < 0.15:
+                return "transpose_nophase", [x], (lambda a: a.transpose(perm, phase=False)), I()
             if name == "transpose":
                 return name, [x], (lambda a: a.transpose(perm)), I()
             return name, [x], (lambda a: a.transpose(perm, inplace=True)), I(inplace=True)
